@@ -126,7 +126,7 @@ if __name__ == "__main__":
         mn = int(params[0]) if params else 1
         mx = int(params[1]) if len(params) > 1 else 8
         gen_mem(outdir, mn, mx, nomax=(mx < 0))
-    elif kind in ("xlcorpus", "wasihost"):
+    elif kind in ("xlcorpus", "wasihost", "inst"):
         pass   # handled at the end of the file
     else:
         sys.exit("unknown kind")
@@ -469,3 +469,130 @@ def gen_wasihost(outdir, with_thread_start=True, name="wasihost"):
 if __name__ == "__main__" and len(sys.argv) > 1 and sys.argv[1] == "wasihost":
     gen_wasihost(sys.argv[2], True, "wasihost")
     gen_wasihost(sys.argv[2], False, "wasihostnt")
+
+
+# ---------------------------------------------------------------------------------------------
+# C06: 'inst' module family (instantiation state).  The generator is also the reference evaluator: it emits the
+# ordered list of resolved active segments, the expected table slots and global values as a C++ include.
+def gen_inst(outdir, seed, k):
+    r = random.Random(seed * 7919 + k)
+    g = Gen("inst")
+    m = g.m
+    mem_imported = r.random() < 0.5
+    tab_imported = r.random() < 0.4
+    has_start = r.random() < 0.7
+    use_goff = r.random() < 0.7
+    use_ginit = r.random() < 0.6
+    shared = (not mem_imported) and r.random() < 0.25
+    goff_val = r.choice([0, 1, 16, 100, 4000])
+    ginit_val = r.getrandbits(64)
+    mem_min = r.choice([1, 1, 2]); mem_max = 4
+    hook = m.import_func("env", "hook", [I32], []) if has_start else None
+    if mem_imported:
+        m.import_memory("env", "mem", mem_min, mem_max)
+    if tab_imported:
+        m.import_table("env", "tab", 8, 8)
+    goff = m.import_global("env", "goff", I32, False) if use_goff else None
+    ginit = m.import_global("env", "ginit", I64, False) if use_ginit else None
+    if not mem_imported:
+        m.memory(mem_min, mem_max, shared=shared, export="memory")
+    if not tab_imported:
+        m.table(8, 8)
+    g0_init = r.choice([0, 5, 0x7FFFFFFF, 0xFFFFFFFF, r.getrandbits(32)])
+    G0 = m.global_(I32, True, [("i32.const", g0_init)])
+    G1 = m.global_(I64, True, [("global.get", ginit)] if use_ginit else [("i64.const", 0x1122334455667788)])
+    g2_bits = r.choice([0x7FC00000, 0x7FA00001, 0xFFC12345, 0x80000000, 0x3F800000, 0x7F800000, 1])
+    G2 = m.global_(F32, False, [("f32.const", g2_bits)])
+    GS = m.global_(I32, True, [("i32.const", 0)])
+    # table functions
+    tf = [m.func([], [I32], [("i32.const", 100 + j)]) for j in range(4)]
+    tt = m.type([], [I32])
+    # data segments (resolved against goff_val by this generator)
+    size = mem_min * 65536
+    segs = []
+    nseg = r.choice([0, 1, 2, 3, 5])
+    for j in range(nseg):
+        kind = r.random()
+        ln = r.choice([0, 1, 3, 8, 40])
+        payload = bytes(r.randrange(1, 256) for _ in range(ln))
+        if kind < 0.2 and segs and segs[-1][1]:
+            # all-zero segment overlapping the previous one
+            prev = segs[-1]
+            off = prev[0] + min(1, len(prev[1]) - 1); payload = bytes(max(1, min(3, len(prev[1]) - 1)))
+            segs.append((off, payload, ("i32.const", off)))
+        elif kind < 0.4 and use_goff:
+            segs.append((goff_val, payload, ("global.get", goff)))
+        elif kind < 0.5:
+            off = size - ln
+            segs.append((off, payload, ("i32.const", off)))
+        elif kind < 0.7 and segs:
+            off = max(0, segs[-1][0] + r.choice([-2, 0, 1, 2]))
+            segs.append((off, payload, ("i32.const", off)))
+        else:
+            off = r.choice([0, 7, 64, 1000, 30000])
+            segs.append((off, payload, ("i32.const", off)))
+    # keep every active segment inside the initial memory (an out-of-bounds segment makes instantiation trap)
+    fixed = []
+    for off, payload, expr in segs:
+        if off + len(payload) > size:
+            if expr[0] == "global.get":
+                payload = payload[:max(0, size - off)]
+            else:
+                off = size - len(payload); expr = ("i32.const", off)
+        fixed.append((off, payload, expr))
+    segs = fixed
+    for off, payload, expr in segs:
+        m.data_active([expr], payload)
+    passive = bytes(r.randrange(256) for _ in range(24))
+    m.data_passive(passive)
+    passive_index = len(segs)
+    # element segments
+    tab = [-1] * 8
+    elems = []
+    for j in range(r.choice([0, 1, 2, 3])):
+        n = r.choice([0, 1, 2, 3])
+        fs = [r.choice(tf) for _ in range(n)]
+        if use_goff and goff_val + n <= 8 and r.random() < 0.4:
+            off = goff_val; expr = ("global.get", goff)
+        else:
+            off = r.randrange(0, 8 - n + 1); expr = ("i32.const", off)
+        elems.append((off, fs))
+        m.elem([expr], fs)
+        for q, f in enumerate(fs):
+            tab[off + q] = 100 + tf.index(f)
+    hook_addr = segs[0][0] if segs and segs[0][1] else 500
+    if has_start:
+        st = m.func([], [], [("i32.const", hook_addr), ("i32.load8_u", 0), ("call", hook),
+                             ("global.get", GS), ("i32.const", 1), "i32.add", ("global.set", GS),
+                             ("i32.const", 600), ("i32.const", 0xAB), ("i32.store8", 0)])
+        m.start = st
+    g.add("get_g0", "", "i", [("global.get", G0)], "get")
+    g.add("set_g0", "i", "", [("local.get", 0), ("global.set", G0)], "set")
+    g.add("get_g1", "", "j", [("global.get", G1)], "get")
+    g.add("set_g1", "j", "", [("local.get", 0), ("global.set", G1)], "set")
+    g.add("get_g2", "", "i", [("global.get", G2), "i32.reinterpret_f32"], "get")
+    g.add("started", "", "i", [("global.get", GS)], "get")
+    g.add("load8", "i", "i", [("local.get", 0), ("i32.load8_u", 0)], "load")
+    g.add("store8", "ii", "", [("local.get", 0), ("local.get", 1), ("i32.store8", 0)], "store")
+    g.add("size", "", "i", ["memory.size"], "size")
+    g.add("grow", "i", "i", [("local.get", 0), "memory.grow"], "grow")
+    g.add("calli", "i", "i", [("local.get", 0), ("call_indirect", tt)], "calli")
+    g.add("minit", "iii", "", [("local.get", 0), ("local.get", 1), ("local.get", 2), ("memory.init", passive_index)], "init")
+    g.write(outdir)
+    with open(os.path.join(outdir, "inst_desc.inc"), "w") as f:
+        f.write("static const int D_MEM_IMPORTED = %d, D_TAB_IMPORTED = %d, D_HAS_START = %d, D_USE_GOFF = %d, D_USE_GINIT = %d, D_SHARED = %d;\n" % (mem_imported, tab_imported, has_start, use_goff, use_ginit, shared))
+        f.write("static const unsigned D_MEM_MIN = %d, D_MEM_MAX = %d, D_GOFF = %d, D_G0 = %du, D_G2_BITS = %du, D_HOOK_ADDR = %d;\n" % (mem_min, mem_max, goff_val, g0_init, g2_bits, hook_addr))
+        f.write("static const unsigned long long D_GINIT = %dull, D_G1_CONST = 0x1122334455667788ull;\n" % ginit_val)
+        f.write("static const struct { unsigned addr, len; const char* bytes; } D_SEGS[] = {\n")
+        for off, payload, expr in segs:
+            f.write('  {%d, %d, "%s"},\n' % (off, len(payload), "".join("\\x%02x" % b for b in payload)))
+        f.write("  {0, 0, 0}\n};\nstatic const int D_NSEGS = %d;\n" % len(segs))
+        f.write('static const char D_PASSIVE[] = "%s";\nstatic const int D_PASSIVE_LEN = %d;\n' % ("".join("\\x%02x" % b for b in passive), len(passive)))
+        f.write("static const struct { int off, n; int vals[4]; } D_ELEMS[] = {\n")
+        for off, fs in elems:
+            f.write("  {%d, %d, {%s}},\n" % (off, len(fs), ", ".join(str(100 + tf.index(x)) for x in fs) or "0"))
+        f.write("  {0, -1, {0}}\n};\n")
+
+
+if __name__ == "__main__" and len(sys.argv) > 1 and sys.argv[1] == "inst":
+    gen_inst(sys.argv[2], int(sys.argv[3]), int(sys.argv[4]))
